@@ -203,6 +203,25 @@ func (t *tlFunc) collectF3() {
 				t.resultUses(call, func(u ssa.Instruction, kind, utab string, uidx ssa.Value) {
 					uses = append(uses, use{u, kind, utab, uidx})
 				})
+			} else if !inTable {
+				// an in-place operation on a bucket that is not in a table yet (c := NewBitmap(); c.Flip(..)):
+				// the stores of that bucket which come after the operation are the ones to guard
+				t.resultUses(stripAssert(recv), func(u ssa.Instruction, kind, utab string, uidx ssa.Value) {
+					if u.Block() == call.Block() {
+						after := false
+						for _, x := range call.Block().Instrs {
+							if x == ssa.Instruction(call) {
+								after = true
+							}
+							if x == u && !after {
+								return
+							}
+						}
+					} else if !blockReaches(call.Block(), u.Block()) {
+						return
+					}
+					uses = append(uses, use{u, kind, utab, uidx})
+				})
 			}
 			if !inTable && len(uses) == 0 {
 				continue // a temporary that never reaches a table
